@@ -8,7 +8,7 @@ use serde_json::{json, Value as J};
 
 pub static PROP: Prop = Prop {
     id: "C03",
-    rule: "cases: typed expression trees (depth <= 5) over every built-in infix (non-assignment), prefix and postfix operator, min/max/sum/mul, AND/OR, `not OP`, conditionals, lists, maps, variables of every type and constant context functions (by bare name and by call) bound in a generated context; leaves: small and fractional numbers, negatives, zero, equal values at different scales, i64 and 96-bit extremes, booleans, strings (empty, ASCII, multi-byte, prefix/suffix related), lists (empty, nested, containing an element equal to the probe), maps, None (unbound name); a type plan makes 3/4 of operator instances well-typed and 1/4 arbitrary; rendered with every compound operand parenthesised (grouping independent of precedence); a sixth of the cases are chains of 2-3 such expressions as statements (the value is the last one's), a sixth of the conditionals over booleans use the condition itself as a branch, a quarter of the maps repeat a key expression. Oracle: an independent reference evaluator on exact big-integer decimals: value and variant must agree, a wrong operand type must give Err; results the documentation does not pin are `unspecified` (only no-panic asserted). Plus the exhaustive table: every binary operator x every ordered pair of a 30-value palette. Non-trivial: >= 2 operators/calls and the reference outcome is a value or an error (not unspecified); distinct by (operator/leaf-type skeleton, outcome class).",
+    rule: "cases: typed expression trees (depth <= 5) over every built-in infix (non-assignment), prefix and postfix operator, min/max/sum/mul, AND/OR, `not OP`, conditionals, lists, maps, variables of every type and constant context functions (by bare name and by call) bound in a generated context; leaves: small and fractional numbers, negatives, zero, equal values at different scales, i64 and 96-bit extremes, booleans, strings (empty, ASCII, multi-byte, prefix/suffix related), lists (empty, nested, containing an element equal to the probe), maps, None (unbound name); a type plan makes 3/4 of operator instances well-typed and 1/4 arbitrary; rendered with every compound operand parenthesised (grouping independent of precedence); a sixth of the cases are chains of 2-3 such expressions as statements (the value is the last one's), a sixth of the conditionals over booleans use the condition itself as a branch, a quarter of the maps repeat a key expression; a sixth of the cases contains assignments inside expressions (list elements, map keys and values, arguments), whose effect later elements read. Oracle: an independent reference evaluator on exact big-integer decimals: value and variant must agree, a wrong operand type must give Err; results the documentation does not pin are `unspecified` (only no-panic asserted). Plus the exhaustive table: every binary operator x every ordered pair of a 31-value palette. Non-trivial: >= 2 operators/calls and the reference outcome is a value or an error (not unspecified); distinct by (operator/leaf-type skeleton, outcome class).",
     assumptions: &[
         "unspecified (not asserted beyond no panic): AND/OR list with a non-bool after the deciding element, sum()/mul() without arguments, results that need rounding, quotients that do not terminate within 28 places (those are checked separately in the table by the bound |a/b - q| <= max(10^-28, 10^-27 * |q|)), intermediate overflow inside sum/mul whose final result fits",
         "the scale of a numeric result is not asserted, its value is",
@@ -50,6 +50,12 @@ fn case(src: &mut Src, st: &mut Stats, _env: &Env) -> CaseResult {
     let mut c = cfg();
     // a fifth of the cases draws leaves from the edge palette as well
     c.edge = src.chance(1, 5);
+    // a sixth of the cases contains assignments inside expressions (lists, maps, arguments): the
+    // value of a later element then depends on the order in which the elements are evaluated
+    c.assignments = src.pick(6) == 5;
+    if c.assignments {
+        st.hist("with-nested-assignments");
+    }
     let sc = gen_context(src, &c);
     let ty = *src.choose(&[Ty::Num, Ty::Bool, Ty::Num, Ty::Bool, Ty::Any, Ty::List, Ty::Map, Ty::Str]);
     let mut tree = gen_expr(src, &c, &sc, ty, 0);
@@ -64,7 +70,8 @@ fn case(src: &mut Src, st: &mut Stats, _env: &Env) -> CaseResult {
     check_value(&tree, &sc, st, nontrivial)
 }
 
-const PALETTE: [&str; 30] = [
+const PALETTE: [&str; 31] = [
+    "\"2\"",
     "0", "1", "2", "3", "(- 1)", "(- 7)", "0.5", "1.0", "1.50", "0.1", "0.2", "0.3", "7", "10", "64", "63", "9223372036854775807", "(- 9223372036854775808)",
     "79228162514264337593543950335", "true", "false", "\"\"", "\"a\"", "\"ab\"", "\"é\"", "[]", "[1]", "[1.0, \"a\"]", "u0", "{1 : 2}",
 ];
